@@ -7,7 +7,7 @@ ends; AArch64: the field is the instruction word at `start`), same label, and th
 `bridge_a64` (Props/C03B) require. Together with C03B this carries `resolved_ref_correct` to the verdict of `judgeRel` on the
 monitor's own records.
 -/
-import AsmjitVerif.Props.C03S
+import AsmjitVerif.Props.C03L
 namespace AsmjitVerif.CodeHolder
 open AsmjitVerif.Offset
 open AsmjitVerif.RefSpec
@@ -185,9 +185,6 @@ theorem eff_secs_same {s x y : State} {g : List GRef} {n : Nat} (h : Eff s x g n
     (hg : y.ghost = x.ghost) : Eff s y g n :=
   ⟨hc.trans h.cur, hs ▸ h.valid, fun i hi => by rw [hs]; exact h.lens i hi, by rw [hs]; exact h.grow, hg.trans h.ghost⟩
 
-theorem newFixup_secs (x : State) (l : Nat) (f : Fixup) : (newFixup x l f).secs = x.secs ∧ (newFixup x l f).cur = x.cur := by
-  unfold newFixup; split <;> exact ⟨rfl, rfl⟩
-
 theorem newFixup_ghost_some (x : State) (l : Nat) (f : Fixup) (rid : Nat) (h : f.lr = some rid) : (newFixup x l f).ghost = x.ghost := by
   unfold newFixup logRef; rw [h]; split <;> rfl
 
@@ -258,7 +255,7 @@ def RefShape (s s' : State) (op : Op) (g : GRef) : Prop :=
   match op with
   | .jmp _ _ l => g.sec = s.cur ∧ g.label = l ∧
       ((g.fmt = fmtS 1 ∧ g.rel = BitVec.ofInt 64 (-1)) ∨ (g.fmt = fmtS 4 ∧ g.rel = BitVec.ofInt 64 (-4))) ∧
-      g.offset + g.fmt.valueSize = s'.curOff
+      g.offset + g.fmt.valueSize = s'.curOff ∧ LeadOK s' g s.curOff
   | .mem k l d => g.sec = s.cur ∧ g.label = l ∧ g.fmt = fmtS 4 ∧
       g.rel = d.signExtend 64 - BitVec.ofNat 64 (4 + (k.shape s.arch).imm.length) ∧
       g.offset + 4 + (k.shape s.arch).imm.length = s'.curOff ∧ s.arch.is32 = false
@@ -294,19 +291,28 @@ theorem resolve_cur_ghost (s : State) : (resolve s).1.cur = s.cur ∧ (resolve s
 
 theorem zeros_len (n : Nat) : (zeros n).length = n := by simp [zeros]
 
-theorem jmp_eff (s : State) (sh : JShape) (opt : FormOpt) (l : Nat) (hc : s.cur < s.secs.length) :
+theorem jmp_eff (s : State) (sh : JShape) (opt : FormOpt) (l : Nat) (h : Inv s)
+    (hS : ∀ o8, sh.op8 = some o8 → BranchLead (sh.pre ++ [o8]) 1) (hL : sh.op32 ≠ [] → BranchLead (sh.pre ++ sh.op32) 4) :
     Quiet s (x86JmpLabel s sh opt l).1 ∨ ∃ g n, Eff s (x86JmpLabel s sh opt l).1 [g] n ∧ (x86JmpLabel s sh opt l).2 = .ok ∧
       (g.sec = s.cur ∧ g.label = l ∧
         ((g.fmt = fmtS 1 ∧ g.rel = BitVec.ofInt 64 (-1)) ∨ (g.fmt = fmtS 4 ∧ g.rel = BitVec.ofInt 64 (-4))) ∧
-        g.offset + g.fmt.valueSize = s.curOff + n) := by
+        g.offset + g.fmt.valueSize = s.curOff + n ∧ LeadOK (x86JmpLabel s sh opt l).1 g s.curOff) := by
+  have hc := h.cur
   unfold x86JmpLabel emitJmpCallRel
   repeat' (first | split | dsimp only)
   all_goals first
     | (left; quiet_build hc; done)
     | (right
-       refine ⟨_, _, eff_emit (eff_newFixup_none (eff_emit (eff_refl s hc) _) l _ _ (by assumption) rfl) _, rfl, rfl, rfl, ?_, ?_⟩
+       refine ⟨_, _, eff_emit (eff_newFixup_none (eff_emit (eff_refl s hc) _) l _ _ (by assumption) rfl) _, rfl, rfl, rfl, ?_, ?_, ?_⟩
        · first | exact .inl ⟨rfl, rfl⟩ | exact .inr ⟨rfl, rfl⟩
-       · simp only [Fixup.toG, fmtS, simpleValue, List.length_append, List.length_singleton, zeros_len]; omega)
+       · simp only [Fixup.toG, fmtS, simpleValue, List.length_append, List.length_singleton, zeros_len]; omega
+       · first
+           | (refine ⟨_, hS _ (by assumption), ?_, fun i hi => site_lead_stable s h _ _ l _ rfl ?_ i hi⟩
+              · simp only [Fixup.toG, List.length_append, List.length_singleton]; omega
+              · simp only [List.length_append, List.length_singleton]; omega)
+           | (refine ⟨_, hL (by intro e; simp_all), ?_, fun i hi => site_lead_stable s h _ _ l _ rfl ?_ i hi⟩
+              · simp only [Fixup.toG, List.length_append]; omega
+              · simp only [List.length_append]; omega))
 
 theorem mem_eff (s : State) (sh : MShape) (l : Nat) (d : BitVec 32) (hc : s.cur < s.secs.length) :
     Quiet s (x86MemLabel s sh l d).1 ∨ ∃ g n, Eff s (x86MemLabel s sh l d).1 [g] n ∧ (x86MemLabel s sh l d).2 = .ok ∧
@@ -359,9 +365,10 @@ theorem step_eff (s : State) (op : Op) (hop : op.early = true) (hns : ∀ id, op
     simp only [step, RefShape]
     split
     · left; exact quiet_refl s hc
-    · rcases jmp_eff s (k.shape s.arch) opt l hc with hq | ⟨g, n, he, hok, h1, h2, h3, h4⟩
+    · rcases jmp_eff s (k.shape s.arch) opt l h (fun o8 ho => branchLead_short _ _ o8 ho) (fun ho => branchLead_long _ _ ho)
+        with hq | ⟨g, n, he, hok, h1, h2, h3, h4, h5⟩
       · left; exact hq
-      · right; refine ⟨g, n, he, hok, h1, h2, h3, ?_⟩
+      · right; refine ⟨g, n, he, hok, h1, h2, h3, ?_, h5⟩
         rw [eff_curOff he]; exact h4
   | mem k l d =>
     unfold StepEff
@@ -575,22 +582,30 @@ theorem getD_setSize (sizes : List Nat) (i n j : Nat) :
 /-! ### simulation -/
 
 /-- a record of the monitor and an entry of the model's log name the same field of the same reference -/
-def Match (g : GRef) (r : Ref) : Prop :=
+def Match (s : State) (g : GRef) (r : Ref) : Prop :=
   r.sec = g.sec ∧ r.label = g.label ∧
   ((r.kind = .x86rel ∧ r.addend = 0#64 ∧
       ((g.fmt = fmtS 1 ∧ g.rel = BitVec.ofInt 64 (-1)) ∨ (g.fmt = fmtS 4 ∧ g.rel = BitVec.ofInt 64 (-4))) ∧
-      g.offset + g.fmt.valueSize = r.stop) ∨
+      g.offset + g.fmt.valueSize = r.stop ∧ LeadOK s g r.start) ∨
    (∃ immLen, r.kind = .x86rip immLen ∧ g.fmt = fmtS 4 ∧ g.rel = r.addend - BitVec.ofNat 64 (4 + immLen) ∧
       g.offset + 4 + immLen = r.stop) ∨
    (∃ k, r.kind = .a64 k ∧ g.fmt = k.fmt ∧ g.rel = r.addend ∧ g.offset = r.start))
+
+theorem match_grow {s s' : State} {g : GRef} {r : Ref} (hi : Inv s) (hg : Grow s s') (h : Match s g r) : Match s' g r := by
+  obtain ⟨h1, h2, h3⟩ := h
+  refine ⟨h1, h2, ?_⟩
+  rcases h3 with ⟨a, b, c, d, e⟩ | h3 | h3
+  · exact .inl ⟨a, b, c, d, leadOK_grow hi hg e⟩
+  · exact .inr (.inl h3)
+  · exact .inr (.inr h3)
 
 structure Sim (s : State) (gh : Ghost) : Prop where
   arch  : gh.arch = s.arch
   cur   : gh.cur = s.cur
   sizes : ∀ i, getSize gh i = secLen s.secs i
-  refs  : ∀ g ∈ s.ghost, ∃ r ∈ gh.refs, Match g r
+  refs  : ∀ g ∈ s.ghost, ∃ r ∈ gh.refs, Match s g r
 
-theorem sim_of_still {s s' : State} {gh gh' : Ghost} (he : Eff s s' [] 0) (ha : s'.arch = s.arch) (hs : Sim s gh)
+theorem sim_of_still {s s' : State} {gh gh' : Ghost} (hi : Inv s) (hgr : Grow s s') (he : Eff s s' [] 0) (ha : s'.arch = s.arch) (hs : Sim s gh)
     (h1 : gh'.arch = gh.arch) (h2 : gh'.cur = gh.cur) (h3 : ∀ i, getSize gh' i = getSize gh i) (h4 : gh'.refs = gh.refs) :
     Sim s' gh' := by
   refine ⟨by rw [h1, hs.arch, ha], by rw [h2, hs.cur, he.cur], ?_, ?_⟩
@@ -601,11 +616,13 @@ theorem sim_of_still {s s' : State} {gh gh' : Ghost} (he : Eff s s' [] 0) (ha : 
     · exact (he.lens i hi).symm
   · intro g hg
     rw [he.ghost, List.append_nil] at hg
-    rw [h4]; exact hs.refs g hg
+    rw [h4]
+    obtain ⟨r, hr, hm⟩ := hs.refs g hg
+    exact ⟨r, hr, match_grow hi hgr hm⟩
 
-theorem sim_of_grow {s s' : State} {gh gh' : Ghost} {newg : List GRef} {n : Nat} (he : Eff s s' newg n) (ha : s'.arch = s.arch)
+theorem sim_of_grow {s s' : State} {gh gh' : Ghost} {newg : List GRef} {n : Nat} (hi : Inv s) (hgr : Grow s s') (he : Eff s s' newg n) (ha : s'.arch = s.arch)
     (hs : Sim s gh) (h1 : gh'.arch = gh.arch) (h2 : gh'.cur = gh.cur) (h3 : gh'.sizes = setSize gh.sizes gh.cur s'.curOff)
-    (h4 : ∀ r ∈ gh.refs, r ∈ gh'.refs) (h5 : ∀ g ∈ newg, ∃ r ∈ gh'.refs, Match g r) : Sim s' gh' := by
+    (h4 : ∀ r ∈ gh.refs, r ∈ gh'.refs) (h5 : ∀ g ∈ newg, ∃ r ∈ gh'.refs, Match s' g r) : Sim s' gh' := by
   refine ⟨by rw [h1, hs.arch, ha], by rw [h2, hs.cur, he.cur], ?_, ?_⟩
   · intro i
     unfold getSize
@@ -616,84 +633,92 @@ theorem sim_of_grow {s s' : State} {gh gh' : Ghost} {newg : List GRef} {n : Nat}
   · intro g hg
     rw [he.ghost, List.mem_append] at hg
     rcases hg with hg | hg
-    · obtain ⟨r, hr, hm⟩ := hs.refs g hg; exact ⟨r, h4 r hr, hm⟩
+    · obtain ⟨r, hr, hm⟩ := hs.refs g hg; exact ⟨r, h4 r hr, match_grow hi hgr hm⟩
     · exact h5 g hg
 
 /-- **sim_step.** One call of the model and one transition of the monitor fed with the model's answers keep the simulation. -/
 theorem sim_step (s : State) (gh : Ghost) (op : Op) (hop : op.early = true) (h : Inv s) (hs : Sim s gh) :
     Sim (step s op).1 (ghostStep gh op (step s op).2 (step s op).1.curOff) := by
   have ha := step_arch s op hop
+  have hgr := step_grow s op hop h
   cases op with
   | «section» id =>
     simp only [step, ghostStep]
     unfold switchSection
     split
-    · simp only [if_true]
-      exact ⟨hs.arch, rfl, hs.sizes, hs.refs⟩
+    · rename_i hcnd
+      simp only [if_true]
+      have hgr' : Grow s { s with cur := id } := by
+        have := hgr; simp only [step] at this; unfold switchSection at this; rw [if_pos hcnd] at this; exact this
+      refine ⟨hs.arch, rfl, hs.sizes, fun g hg => ?_⟩
+      obtain ⟨r, hr, hm⟩ := hs.refs g hg
+      exact ⟨r, hr, match_grow h hgr' hm⟩
     · simp only [reduceCtorEq, if_false]
       exact hs
   | newLabel =>
     have he := step_still s .newLabel hop rfl h
     simp only [ghostStep]
-    exact sim_of_still he ha hs rfl rfl (fun _ => rfl) rfl
+    exact sim_of_still h hgr he ha hs rfl rfl (fun _ => rfl) rfl
   | newSection a o =>
     have he := step_still s (.newSection a o) hop rfl h
     simp only [ghostStep]
     split
-    · exact sim_of_still he ha hs rfl rfl (fun i => by unfold getSize; exact getD_append_zero _ _) rfl
-    · exact sim_of_still he ha hs rfl rfl (fun _ => rfl) rfl
+    · exact sim_of_still h hgr he ha hs rfl rfl (fun i => by unfold getSize; exact getD_append_zero _ _) rfl
+    · exact sim_of_still h hgr he ha hs rfl rfl (fun _ => rfl) rfl
   | bind l =>
     have he := step_still s (.bind l) hop rfl h
     simp only [ghostStep]
     split
-    · exact sim_of_still he ha hs rfl rfl (fun _ => rfl) rfl
-    · exact sim_of_still he ha hs rfl rfl (fun _ => rfl) rfl
+    · exact sim_of_still h hgr he ha hs rfl rfl (fun _ => rfl) rfl
+    · exact sim_of_still h hgr he ha hs rfl rfl (fun _ => rfl) rfl
   | vsize i v =>
     have he := step_still s (.vsize i v) hop rfl h
     simp only [ghostStep]
-    exact sim_of_still he ha hs rfl rfl (fun _ => rfl) rfl
+    exact sim_of_still h hgr he ha hs rfl rfl (fun _ => rfl) rfl
   | flatten =>
     have he := step_still s .flatten hop rfl h
     simp only [ghostStep]
-    exact sim_of_still he ha hs rfl rfl (fun _ => rfl) rfl
+    exact sim_of_still h hgr he ha hs rfl rfl (fun _ => rfl) rfl
   | resolve =>
     have he := step_still s .resolve hop rfl h
     simp only [ghostStep]
-    exact sim_of_still he ha hs rfl rfl (fun _ => rfl) rfl
+    exact sim_of_still h hgr he ha hs rfl rfl (fun _ => rfl) rfl
   | relocate b => cases hop
   | align n =>
     rcases step_eff s (.align n) hop (by intro id e; cases e) h with ⟨n, he⟩ | ⟨g, n, he, _, hsh⟩
     · simp only [ghostStep]
-      exact sim_of_grow he ha hs rfl rfl rfl (fun r hr => hr) (by intro g hg; cases hg)
+      exact sim_of_grow h hgr he ha hs rfl rfl rfl (fun r hr => hr) (by intro g hg; cases hg)
     · exact absurd hsh (by simp [RefShape])
   | embed bs =>
     rcases step_eff s (.embed bs) hop (by intro id e; cases e) h with ⟨n, he⟩ | ⟨g, n, he, _, hsh⟩
     · simp only [ghostStep]
-      exact sim_of_grow he ha hs rfl rfl rfl (fun r hr => hr) (by intro g hg; cases hg)
+      exact sim_of_grow h hgr he ha hs rfl rfl rfl (fun r hr => hr) (by intro g hg; cases hg)
     · exact absurd hsh (by simp [RefShape])
   | jmp k opt l =>
     rcases step_eff s (.jmp k opt l) hop (by intro id e; cases e) h with ⟨n, he⟩ | ⟨g, n, he, hok, hsh⟩
     · simp only [ghostStep]
       split
-      · exact sim_of_grow he ha hs rfl rfl rfl (fun r hr => List.mem_append_left _ hr) (by intro g hg; cases hg)
-      · exact sim_of_grow he ha hs rfl rfl rfl (fun r hr => hr) (by intro g hg; cases hg)
+      · exact sim_of_grow h hgr he ha hs rfl rfl rfl (fun r hr => List.mem_append_left _ hr) (by intro g hg; cases hg)
+      · exact sim_of_grow h hgr he ha hs rfl rfl rfl (fun r hr => hr) (by intro g hg; cases hg)
     · simp only [ghostStep, hok, if_true]
-      refine sim_of_grow he ha hs rfl rfl rfl (fun r hr => List.mem_append_left _ hr) ?_
+      refine sim_of_grow h hgr he ha hs rfl rfl rfl (fun r hr => List.mem_append_left _ hr) ?_
       intro g' hg'
       simp only [List.mem_singleton] at hg'
       subst hg'
       refine ⟨_, List.mem_append_right _ (List.mem_singleton.2 rfl), ?_⟩
       simp only [RefShape] at hsh
-      obtain ⟨h1, h2, h3, h4⟩ := hsh
-      exact ⟨by rw [h1]; exact hs.cur, h2.symm, .inl ⟨rfl, rfl, h3, h4⟩⟩
+      obtain ⟨h1, h2, h3, h4, h5⟩ := hsh
+      refine ⟨by rw [h1]; exact hs.cur, h2.symm, .inl ⟨rfl, rfl, h3, h4, ?_⟩⟩
+      show LeadOK _ g' (getSize gh gh.cur)
+      rw [hs.sizes, hs.cur]; exact h5
   | mem k l d =>
     rcases step_eff s (.mem k l d) hop (by intro id e; cases e) h with ⟨n, he⟩ | ⟨g, n, he, hok, hsh⟩
     · simp only [ghostStep]
       split
-      · exact sim_of_grow he ha hs rfl rfl rfl (fun r hr => List.mem_append_left _ hr) (by intro g hg; cases hg)
-      · exact sim_of_grow he ha hs rfl rfl rfl (fun r hr => hr) (by intro g hg; cases hg)
+      · exact sim_of_grow h hgr he ha hs rfl rfl rfl (fun r hr => List.mem_append_left _ hr) (by intro g hg; cases hg)
+      · exact sim_of_grow h hgr he ha hs rfl rfl rfl (fun r hr => hr) (by intro g hg; cases hg)
     · simp only [ghostStep, hok, if_true]
-      refine sim_of_grow he ha hs rfl rfl rfl (fun r hr => List.mem_append_left _ hr) ?_
+      refine sim_of_grow h hgr he ha hs rfl rfl rfl (fun r hr => List.mem_append_left _ hr) ?_
       intro g' hg'
       simp only [List.mem_singleton] at hg'
       subst hg'
@@ -710,10 +735,10 @@ theorem sim_step (s : State) (gh : Ghost) (op : Op) (hop : op.early = true) (h :
     rcases step_eff s (.a64 k l a) hop (by intro id e; cases e) h with ⟨n, he⟩ | ⟨g, n, he, hok, hsh⟩
     · simp only [ghostStep]
       split
-      · exact sim_of_grow he ha hs rfl rfl rfl (fun r hr => List.mem_append_left _ hr) (by intro g hg; cases hg)
-      · exact sim_of_grow he ha hs rfl rfl rfl (fun r hr => hr) (by intro g hg; cases hg)
+      · exact sim_of_grow h hgr he ha hs rfl rfl rfl (fun r hr => List.mem_append_left _ hr) (by intro g hg; cases hg)
+      · exact sim_of_grow h hgr he ha hs rfl rfl rfl (fun r hr => hr) (by intro g hg; cases hg)
     · simp only [ghostStep, hok, if_true]
-      refine sim_of_grow he ha hs rfl rfl rfl (fun r hr => List.mem_append_left _ hr) ?_
+      refine sim_of_grow h hgr he ha hs rfl rfl rfl (fun r hr => List.mem_append_left _ hr) ?_
       intro g' hg'
       simp only [List.mem_singleton] at hg'
       subst hg'
@@ -726,36 +751,36 @@ theorem sim_step (s : State) (gh : Ghost) (op : Op) (hop : op.early = true) (h :
     rcases step_eff s (.elabel l n) hop (by intro id e; cases e) h with ⟨n, he⟩ | ⟨g, n, he, _, hsh⟩
     · simp only [ghostStep]
       split
-      · exact sim_of_grow he ha hs rfl rfl rfl (fun r hr => List.mem_append_left _ hr) (by intro g hg; cases hg)
-      · exact sim_of_grow he ha hs rfl rfl rfl (fun r hr => hr) (by intro g hg; cases hg)
+      · exact sim_of_grow h hgr he ha hs rfl rfl rfl (fun r hr => List.mem_append_left _ hr) (by intro g hg; cases hg)
+      · exact sim_of_grow h hgr he ha hs rfl rfl rfl (fun r hr => hr) (by intro g hg; cases hg)
     · exact absurd hsh (by simp [RefShape])
   | edelta l b n =>
     rcases step_eff s (.edelta l b n) hop (by intro id e; cases e) h with ⟨n, he⟩ | ⟨g, n, he, _, hsh⟩
     · simp only [ghostStep]
       split
-      · exact sim_of_grow he ha hs rfl rfl rfl (fun r hr => List.mem_append_left _ hr) (by intro g hg; cases hg)
-      · exact sim_of_grow he ha hs rfl rfl rfl (fun r hr => hr) (by intro g hg; cases hg)
+      · exact sim_of_grow h hgr he ha hs rfl rfl rfl (fun r hr => List.mem_append_left _ hr) (by intro g hg; cases hg)
+      · exact sim_of_grow h hgr he ha hs rfl rfl rfl (fun r hr => hr) (by intro g hg; cases hg)
     · exact absurd hsh (by simp [RefShape])
   | jmpAbs k opt t =>
     rcases step_eff s (.jmpAbs k opt t) hop (by intro id e; cases e) h with ⟨n, he⟩ | ⟨g, n, he, _, hsh⟩
     · simp only [ghostStep]
       split
-      · exact sim_of_grow he ha hs rfl rfl rfl (fun r hr => List.mem_append_left _ hr) (by intro g hg; cases hg)
-      · exact sim_of_grow he ha hs rfl rfl rfl (fun r hr => hr) (by intro g hg; cases hg)
+      · exact sim_of_grow h hgr he ha hs rfl rfl rfl (fun r hr => List.mem_append_left _ hr) (by intro g hg; cases hg)
+      · exact sim_of_grow h hgr he ha hs rfl rfl rfl (fun r hr => hr) (by intro g hg; cases hg)
     · exact absurd hsh (by simp [RefShape])
   | a64Abs k t =>
     rcases step_eff s (.a64Abs k t) hop (by intro id e; cases e) h with ⟨n, he⟩ | ⟨g, n, he, _, hsh⟩
     · simp only [ghostStep]
       split
-      · exact sim_of_grow he ha hs rfl rfl rfl (fun r hr => List.mem_append_left _ hr) (by intro g hg; cases hg)
-      · exact sim_of_grow he ha hs rfl rfl rfl (fun r hr => hr) (by intro g hg; cases hg)
+      · exact sim_of_grow h hgr he ha hs rfl rfl rfl (fun r hr => List.mem_append_left _ hr) (by intro g hg; cases hg)
+      · exact sim_of_grow h hgr he ha hs rfl rfl rfl (fun r hr => hr) (by intro g hg; cases hg)
     · exact absurd hsh (by simp [RefShape])
   | memAbs k a t =>
     rcases step_eff s (.memAbs k a t) hop (by intro id e; cases e) h with ⟨n, he⟩ | ⟨g, n, he, _, hsh⟩
     · simp only [ghostStep]
       split
-      · exact sim_of_grow he ha hs rfl rfl rfl (fun r hr => List.mem_append_left _ hr) (by intro g hg; cases hg)
-      · exact sim_of_grow he ha hs rfl rfl rfl (fun r hr => hr) (by intro g hg; cases hg)
+      · exact sim_of_grow h hgr he ha hs rfl rfl rfl (fun r hr => List.mem_append_left _ hr) (by intro g hg; cases hg)
+      · exact sim_of_grow h hgr he ha hs rfl rfl rfl (fun r hr => hr) (by intro g hg; cases hg)
     · exact absurd hsh (by simp [RefShape])
 
 /-- the answers of the model, as the check script feeds them to the monitor: (op, error, size of the current section) -/
@@ -783,7 +808,7 @@ theorem sim_init (arch : Arch) (base : BitVec 64) (ib : Option (BitVec 64)) :
     | succ j => simp
   · intro g hg; simp [State.init] at hg
 
-theorem sim_resolve (s : State) (gh : Ghost) (hs : Sim s gh) :
+theorem sim_resolve (s : State) (gh : Ghost) (h : Inv s) (hs : Sim s gh) :
     Sim (resolve s).1 (ghostStep gh .resolve (resolve s).2 (resolve s).1.curOff) := by
   obtain ⟨h1, h2⟩ := resolve_cur_ghost s
   have ha : (resolve s).1.arch = s.arch := by unfold resolve; split <;> rfl
@@ -791,7 +816,8 @@ theorem sim_resolve (s : State) (gh : Ghost) (hs : Sim s gh) :
   refine ⟨by rw [hs.arch, ha], by rw [hs.cur, h1], fun i => by rw [hs.sizes, resolve_lens s i], ?_⟩
   intro g hg
   rw [h2] at hg
-  exact hs.refs g hg
+  obtain ⟨r, hr, hm⟩ := hs.refs g hg
+  exact ⟨r, hr, match_grow h (grow_resolve s h) hm⟩
 
 /-- **monitor_refs_match.** For every program of the menu finished by `flatten` + `resolve`: the monitor, fed with nothing
 but the answers of the calls, holds for every entry of the model's log a record that names the same field. -/
@@ -809,7 +835,7 @@ theorem monitor_refs_match (arch : Arch) (base : BitVec 64) (ib : Option (BitVec
   have hsim := sim_run (ops ++ [.flatten]) _ _ hfl (inv_init arch base) (sim_init arch base ib)
   have e : ops ++ [Op.flatten, Op.resolve] = (ops ++ [Op.flatten]) ++ [Op.resolve] := by simp
   rw [e, run_append]
-  exact sim_resolve _ _ hsim
+  exact sim_resolve _ _ (run_inv _ _ hfl (inv_init arch base)) hsim
 
 theorem fmtS_ne_a64 (n : Nat) (k : A64Kind) (hn : n = 1 ∨ n = 4) : fmtS n ≠ k.fmt := by
   rcases hn with rfl | rfl <;> cases k <;> simp [fmtS, simpleValue, A64Kind.fmt, immValue]
@@ -826,7 +852,7 @@ theorem monitor_verdict_x86 (arch : Arch) (base : BitVec 64) (ib : Option (BitVe
     let s1 := run (State.init arch base) (ops ++ [.flatten])
     let gh := ghostStep (ghostRun { arch := arch, initBase := ib } (trace (State.init arch base) (ops ++ [.flatten]))) .resolve
                 (resolve s1).2 (resolve s1).1.curOff
-    ∃ r ∈ gh.refs, Match g r ∧ ∃ lsec loff v,
+    ∃ r ∈ gh.refs, Match s g r ∧ ∃ lsec loff v,
       s.labels[r.label]? = some (.bound lsec loff) ∧ field s.secs g = some v ∧ g.offset + n ≤ r.stop ∧
       judgeRel (some (secOffset s.secs lsec + loff + r.addend)) (secOffset s.secs r.sec + BitVec.ofNat 64 r.stop) false
         (sextN n v) (fmtS n) = .correct := by
@@ -836,7 +862,7 @@ theorem monitor_verdict_x86 (arch : Arch) (base : BitVec 64) (ib : Option (BitVe
   refine ⟨r, hr, hm, ?_⟩
   obtain ⟨hsec, hlab, hk⟩ := hm
   have hvs : g.fmt.valueSize = n := by rw [hf]; rfl
-  rcases hk with ⟨_, hadd, hrel, hstop⟩ | ⟨immLen, _, hf4, hrel, hstop⟩ | ⟨k, _, hfk, _, _⟩
+  rcases hk with ⟨_, hadd, hrel, hstop, _⟩ | ⟨immLen, _, hf4, hrel, hstop⟩ | ⟨k, _, hfk, _, _⟩
   · -- rel8 / rel32 of a branch
     have hrel' : g.rel = r.addend - BitVec.ofNat 64 (n + 0) := by
       rw [hadd]
@@ -869,7 +895,7 @@ theorem monitor_verdict_a64 (arch : Arch) (base : BitVec 64) (ib : Option (BitVe
     let s1 := run (State.init arch base) (ops ++ [.flatten])
     let gh := ghostStep (ghostRun { arch := arch, initBase := ib } (trace (State.init arch base) (ops ++ [.flatten]))) .resolve
                 (resolve s1).2 (resolve s1).1.curOff
-    ∃ r ∈ gh.refs, Match g r ∧ ∃ k lsec loff v,
+    ∃ r ∈ gh.refs, Match s g r ∧ ∃ k lsec loff v,
       r.kind = .a64 k ∧ s.labels[r.label]? = some (.bound lsec loff) ∧ field s.secs g = some v ∧ g.offset = r.start ∧
       judgeRel (some (secOffset s.secs lsec + loff + r.addend)) (secOffset s.secs r.sec + BitVec.ofNat 64 r.start) false
         (decode32 k.fmt (BitVec.ofNat 32 v)) k.fmt = .correct := by
@@ -878,7 +904,7 @@ theorem monitor_verdict_a64 (arch : Arch) (base : BitVec 64) (ib : Option (BitVe
   obtain ⟨r, hr, hm⟩ := hsim.refs g hg
   refine ⟨r, hr, hm, ?_⟩
   obtain ⟨hsec, hlab, hk⟩ := hm
-  rcases hk with ⟨_, _, hrel, _⟩ | ⟨immLen, _, hf4, _, _⟩ | ⟨k, hkind, hfk, hrel, hstart⟩
+  rcases hk with ⟨_, _, hrel, _, _⟩ | ⟨immLen, _, hf4, _, _⟩ | ⟨k, hkind, hfk, hrel, hstart⟩
   · exfalso
     rcases hrel with ⟨h1, _⟩ | ⟨h1, _⟩
     · exact fmtS_ne_a64 1 k0 (.inl rfl) (h1.symm.trans hf)
@@ -890,5 +916,29 @@ theorem monitor_verdict_a64 (arch : Arch) (base : BitVec 64) (ib : Option (BitVe
       rw [hsec, ← hstart, ← hrel]
       exact hj
     · exact absurd hp hnp
+
+/-- **monitor_branch_field.** The monitor's opcode-based field location is the model's logged field: for every program of the
+menu finished by `flatten` + `resolve` and every logged reference that the monitor recorded as a branch (`x86rel`),
+`x86BranchField`, run on the final bytes of the section from the record's `start`, returns exactly the logged field's offset
+and size, and the field ends at the record's `stop` (so `judgeRef`'s "branch-length" test passes and the displacement it loads
+is the logged field). With `monitor_verdict_x86` this closes the bridge from `resolved_ref_correct` to `judgeRef`. -/
+theorem monitor_branch_field (arch : Arch) (base : BitVec 64) (ib : Option (BitVec 64)) (ops : List Op) (hops : ∀ op ∈ ops, op.early = true) :
+    let s := run (State.init arch base) (ops ++ [.flatten, .resolve])
+    let s1 := run (State.init arch base) (ops ++ [.flatten])
+    let gh := ghostStep (ghostRun { arch := arch, initBase := ib } (trace (State.init arch base) (ops ++ [.flatten]))) .resolve
+                (resolve s1).2 (resolve s1).1.curOff
+    ∀ g ∈ s.ghost, ∃ r ∈ gh.refs, Match s g r ∧
+      (r.kind = .x86rel → ∀ sec, s.secs[r.sec]? = some sec →
+        x86BranchField sec.buf r.start = some (g.offset, g.fmt.valueSize) ∧ g.offset + g.fmt.valueSize = r.stop) := by
+  intro s s1 gh g hg
+  have hsim : Sim s gh := monitor_refs_match arch base ib ops hops
+  obtain ⟨r, hr, hm⟩ := hsim.refs g hg
+  refine ⟨r, hr, hm, ?_⟩
+  intro hk sec hsec
+  obtain ⟨hsecEq, _, hkinds⟩ := hm
+  rcases hkinds with ⟨_, _, _, hstop, hlead⟩ | ⟨immLen, hk2, _⟩ | ⟨k, hk2, _⟩
+  · exact ⟨leadOK_decodes hlead sec (by rw [← hsecEq]; exact hsec), hstop⟩
+  · rw [hk] at hk2; cases hk2
+  · rw [hk] at hk2; cases hk2
 
 end AsmjitVerif.CodeHolder
